@@ -13,7 +13,9 @@ func C18_writer_reset() {
 	server0 := vChoose("side0", 2) == 0
 	dst0 := &vDst{failAt: -1}
 	rawLen := []int{16, 140}[vChoose("raw", 2)]
-	w := NewWriterBuffer(dst0, vSide(server0), ws.OpText, make([]byte, rawLen))
+	// (a caller-supplied buffer may be a prefix of a larger array: the writer owns len(buf) bytes)
+	spare := []int{0, 24}[vChoose("spare", 2)]
+	w := NewWriterBuffer(dst0, vSide(server0), ws.OpText, make([]byte, rawLen, rawLen+spare))
 	// arbitrary history, expressed as an arbitrary state
 	w.n = vChoose("n", 4)
 	vSetIntLike(&w.fseq, vInt("fseq"))
@@ -35,14 +37,16 @@ func C18_writer_reset() {
 	server := vChoose("side", 2) == 0
 	op := ws.OpCode(1 + vChoose("op", 2))
 	dst := &vDst{failAt: -1}
+	raw0 := len(w.raw) // the buffer the writer owns before the reset (possibly grown)
 	if vChoose("which", 2) == 0 {
 		w.Reset(dst, vSide(server), op)
-		fresh := NewWriterBuffer(dst, vSide(server), op, make([]byte, len(w.raw)))
+		fresh := NewWriterBuffer(dst, vSide(server), op, make([]byte, raw0))
 		same := vAnd(w.n == fresh.n, vAnd(w.fseq == fresh.fseq, vAnd(w.dirty == fresh.dirty, w.noFlush == fresh.noFlush)))
 		vAssert(same, "reset.counters_as_new")
 		vAssert(vAnd(w.op == fresh.op, w.state == fresh.state), "reset.config_as_new")
 		vAssert(len(w.extensions) == 0, "reset.extensions_dropped")
 		vAssert(vAnd(len(w.buf) == len(fresh.buf), len(w.raw) == len(fresh.raw)), "reset.buffer_as_new")
+		vAssert(vAnd(w.Size() == fresh.Size(), w.Available() == fresh.Available()), "reset.size_as_new")
 		vAssert(w.err == nil, "reset.sticky_error_cleared")
 		// behaves as new: one small message
 		k, err := w.Write([]byte{'h', 'i'})
